@@ -1,6 +1,13 @@
 use crate::protobuf::errors::{ErrorKind, ProtobufError};
 use crate::protobuf::value::{FieldTypes, LimitReader, ReadValue};
 
+/// Maximum nesting depth of embedded messages.
+///
+/// Decoding embedded messages is recursive, so the depth needs to be limited to
+/// avoid overflowing the stack when decoding untrusted input. The limit is the
+/// same as the default used by other Protocol Buffers implementations.
+const MAX_MESSAGE_DEPTH: u32 = 100;
+
 /// Wire-type and associated value of a field.
 ///
 /// See <https://protobuf.dev/programming-guides/encoding/#structure>.
@@ -91,6 +98,9 @@ pub struct Field<'r, R: ReadValue> {
     /// Debug name of the message type this field belongs to.
     context: Option<&'static str>,
 
+    /// Nesting depth of the message this field belongs to.
+    depth: u32,
+
     /// Unconsumed field ID slot in the parent [`Fields`].
     unconsumed_field: &'r mut Option<u64>,
 }
@@ -145,10 +155,14 @@ impl<'r, R: ReadValue> Field<'r, R> {
         match self.value {
             FieldValue::Len(len) => {
                 self.consume_field()?;
+                if self.depth >= MAX_MESSAGE_DEPTH {
+                    return Err(self.error(ErrorKind::NestingTooDeep));
+                }
                 Ok(Fields {
                     reader: self.reader.sub_limit(len)?,
                     context,
                     unconsumed_field: None,
+                    depth: self.depth + 1,
                 })
             }
             _ => Err(self.error(ErrorKind::FieldTypeMismatch)),
@@ -396,6 +410,9 @@ pub struct Fields<'r, R: ReadValue> {
     /// before being dropped. This is used to report an error when attempting
     /// to read the next field.
     unconsumed_field: Option<u64>,
+
+    /// Nesting depth of this message. This is zero for the top-level message.
+    depth: u32,
 }
 
 impl<'r, R: ReadValue> Fields<'r, R> {
@@ -408,6 +425,7 @@ impl<'r, R: ReadValue> Fields<'r, R> {
             reader: LimitReader::new(reader, u64::MAX),
             context,
             unconsumed_field: None,
+            depth: 0,
         }
     }
 
@@ -465,6 +483,7 @@ impl<'r, R: ReadValue> Fields<'r, R> {
             consumed: !matches!(value, FieldValue::Len(_)),
             value,
             context: self.context,
+            depth: self.depth,
             unconsumed_field: &mut self.unconsumed_field,
         }))
     }
